@@ -1059,9 +1059,14 @@ def synthetic_correspond(ctx, c):
         rc, out = ctx.coq('sdiag', HEADER + 'Eval vm_compute in %s.\n' % items[i], timeout=300)
         mm = re.search(r'=\s*(\d+)', out)
         stage = int(mm.group(1)) if mm else -1
-        c.failures.append(Failure('correspondence', 'hand-made definition (%d bytes, %s): %s; library reader: %s' % (
+        ld = outs[i]['desc']
+        zero_bus = bool(stage == 5 and ld and any(io[2] == ['q'] for io in ld['ins'] + ld['outs'])
+                        and any(w in (0, 0x80000000) for w in structs[i]['consts']))
+        c.failures.append(Failure('correspondence', 'hand-made definition (%d bytes, %s): %s; library reader: %s%s' % (
             len(blobs[i]), 'intact' if ods[i] else 'damaged', SYN_STAGE.get(stage, 'stage %s' % stage),
-            'accepts' if outs[i]['desc'] else outs[i]['exc']),
+            'accepts' if outs[i]['desc'] else outs[i]['exc'],
+            ' (an In/Out unit on a zero constant bus is described with starting channel \'?\')' if zero_bus else ''),
+            signature=SIGS['bus0'] if zero_bus else None,
             found_input=(stage in (5, 8)), replay={'bytes': blobs[i].hex(), 'struct': structs[i], 'damaged': ods[i] is None,
                                                    'libdesc': outs[i]['desc'], 'libexc': outs[i]['exc'], 'stage': stage}))
     return len(blobs)
@@ -1114,7 +1119,7 @@ def bridge_correspond(ctx, c):
     keep = []
     for p, o in zip(progs, outs):
         # the compiler model's constants are rationals: the sign of a zero cannot be represented there
-        if any(w == 0x80000000 for _q, w in o['f32']):
+        if o.get('negzero') or any(w == 0x80000000 for _q, w in o['f32']):
             c.count('bridge:skipped-negative-zero')
             continue
         keep.append((p, o))
